@@ -437,6 +437,34 @@ func (sc *metaScn) metaReload() bool {
 	return true
 }
 
+// whileUnloaded detaches every attached actor, waits for the idle unload, runs f (requests from unattached
+// sessions then take the hub's offline path), and re-attaches those who were attached.
+func (sc *metaScn) whileUnloaded(f func()) bool {
+	e := sc.w.e
+	var was []*metaActor
+	for _, a := range sc.actors {
+		if a.c.attachState()[sc.nameFor(a)] {
+			was = append(was, a)
+			a.c.leave(sc.nameFor(a), false)
+		}
+	}
+	e.vfQuiesce()
+	if !e.vfWaitUnloaded(sc.canon) {
+		sc.r.Inconclusive("meta: topic " + sc.canon + " not unloaded for an offline step")
+		return false
+	}
+	f()
+	for _, a := range was {
+		a.c.sub(sc.nameFor(a), nil)
+	}
+	e.vfQuiesce()
+	st := &metaStep{N: len(sc.steps), Kind: "reload", Actor: "-"}
+	st.before = sc.rowsNow()
+	st.after = st.before
+	sc.steps = append(sc.steps, st)
+	return true
+}
+
 func acsOf(m map[string]any) (want, given, mode string, ok bool) {
 	a, isMap := m["acs"].(map[string]any)
 	if !isMap {
